@@ -105,6 +105,11 @@ def run(tier, seed):
         srcs.append(("sv", FILETXT, {}, pth))
         srcs.append(("sv", FILETXT + "@@@ junk\n", {}, pth))
         srcs.append(("lib", "library l `__FILE__ ;\n", {}, pth))
+    # a header that lies BESIDE a top-level file in a sub-directory is not found unless an include path names that directory -
+    # by every entry point alike (round-5 seeded change: the file entry points searched the file's own directory)
+    for pth in ("sub/top.sv", "sub/./top.sv"):
+        srcs.append(("sv", "`include \"beside.svh\"\nmodule m; `BW w; endmodule\n", {"sub/beside.svh": "`define BW wire\n"}, pth))
+        srcs.append(("lib", "`include \"beside.svh\"\nlibrary l a.v;\n", {"sub/beside.svh": "library k b.v;\n"}, pth))
     pcases = []
     for i, (kind, text, incs, toppath) in enumerate(srcs):
         files = dict(incs)
